@@ -373,7 +373,7 @@ func init() {
 	props["C18"] = PropSpec{
 		ID: "C18",
 		Runs: []HarnessRun{
-			{Rel: "client", Dir: "client", Entry: "VH_C18_jar", Cases: tierCases([]int{1, 2}, []int{1, 2, 3}), Reach: []string{"checked"}, MaxPaths: 400000},
+			{Rel: "client", Dir: "client", Entry: "VH_C18_jar", Cases: tierCases([]int{1, 2, 12}, []int{1, 2, 3, 12, 13}), Reach: []string{"checked"}, MaxPaths: 400000},
 			{Rel: "client", Dir: "client", Entry: "VH_C18_assembly", Cases: seqCases(2), Reach: []string{"assembled"}, MaxPaths: 100000, Repeat: 60},
 			{Rel: "client", Dir: "client", Entry: "VH_C18_handoff", Cases: seqCases(2), Reach: []string{"B-done"}, MaxPaths: 300000, Repeat: 40},
 		},
